@@ -25,8 +25,8 @@ LIBS = ["-lm", "-lpthread", "-lrt", "-ldl"]
 UBSAN_POLICY = [
     "-fsanitize=address,undefined",
     "-fno-sanitize-recover=all",
-    # arithmetic UB is not promised away by any property: count, do not die
-    "-fsanitize-recover=signed-integer-overflow,shift,float-cast-overflow",
+    # arithmetic UB and zero-length memcpy/memmove(NULL, ..) are not promised away by any property: count, do not die
+    "-fsanitize-recover=signed-integer-overflow,shift,float-cast-overflow,nonnull-attribute",
     "-fno-omit-frame-pointer",
 ]
 
